@@ -1,1 +1,188 @@
-fn main() {}
+//! sm9mc — bounded-exhaustive exploration of the real sm9_core code against the reference model.
+//!
+//! usage: sm9mc <C01..C18> [quick|thorough] [--child]
+//!        sm9mc replay <file>
+//!        sm9mc selftest
+//!        sm9mc transcript <quick|thorough> <chunk-dir>
+
+mod api;
+mod c06;
+mod fp;
+
+use mccore::{Bad, Meta, Run, Tier};
+use serde_json::Value;
+
+fn profile() -> &'static str {
+    if cfg!(debug_assertions) {
+        "dbg"
+    } else {
+        "release"
+    }
+}
+
+fn model_selftest(full: bool) {
+    let res = refmodel::self_test(full);
+    let bad: Vec<_> = res.iter().filter(|(_, ok)| !ok).collect();
+    if !bad.is_empty() {
+        for (n, _) in bad {
+            println!("MACHINERY: reference model self-test failed: {}", n);
+        }
+        std::process::exit(2);
+    }
+}
+
+type RunFn = fn(&Run);
+type MetaFn = fn(&Run) -> Meta;
+type ReplayFn = fn(&Value) -> Result<(), Bad>;
+
+fn table(id: &str) -> Option<(RunFn, MetaFn)> {
+    Some(match id {
+        "C06" => (c06::run, c06::meta),
+        _ => return None,
+    })
+}
+fn replay_table(op: &str) -> Option<ReplayFn> {
+    let pre = op.split('.').next().unwrap_or("");
+    Some(match pre {
+        "c06" => c06::replay,
+        _ => return None,
+    })
+}
+
+fn main() {
+    let args: Vec<String> = std::env::args().collect();
+    if args.len() < 2 {
+        eprintln!("usage: sm9mc <C01..C18|replay|selftest> ...");
+        std::process::exit(2);
+    }
+    // library panics are observations; keep stderr quiet
+    std::panic::set_hook(Box::new(|_| {}));
+    let threads = std::env::var("VERIF_THREADS").ok().and_then(|s| s.parse().ok()).unwrap_or(16usize);
+    rayon::ThreadPoolBuilder::new().num_threads(threads).stack_size(16 << 20).build_global().unwrap();
+    let seed: u64 = std::env::var("VERIF_SEED").ok().and_then(|s| s.parse().ok()).unwrap_or(1);
+    match args[1].as_str() {
+        "selftest" => {
+            let res = refmodel::self_test(true);
+            let mut bad = 0;
+            for (n, ok) in &res {
+                println!("{} {}", if *ok { "ok  " } else { "FAIL" }, n);
+                if !*ok {
+                    bad += 1;
+                }
+            }
+            std::process::exit(if bad == 0 { 0 } else { 2 });
+        }
+        "replay" => {
+            let path = args.get(2).expect("replay <file>");
+            std::process::exit(replay(path));
+        }
+        id => {
+            let tier = match args.get(2).map(|s| s.as_str()).or(std::env::var("VERIF_TIER").ok().as_deref().map(|_| "")) {
+                Some("thorough") => Tier::Thorough,
+                Some("quick") => Tier::Quick,
+                _ => match std::env::var("VERIF_TIER").as_deref() {
+                    Ok("thorough") => Tier::Thorough,
+                    _ => Tier::Quick,
+                },
+            };
+            let child = args.iter().any(|a| a == "--child");
+            let (runf, metaf) = match table(id) {
+                Some(t) => t,
+                None => {
+                    println!("MACHINERY: unknown property {}", id);
+                    std::process::exit(2);
+                }
+            };
+            model_selftest(tier == Tier::Thorough && !child);
+            let run = Run::new(id, tier, seed, profile());
+            let meta = metaf(&run);
+            *mccore::FINISH_META.lock().unwrap() = Some(meta.clone());
+            if child {
+                // the parent merges this summary; nothing else may go to stdout
+                runf(&run);
+                println!("{}", run.summary_json());
+                std::process::exit(0);
+            }
+            runf(&run);
+            std::process::exit(run.finish(&meta));
+        }
+    }
+}
+
+/// re-execute one recorded case on the real code, without any explorer; twice, with identical outcome
+fn replay(path: &str) -> i32 {
+    let txt = match std::fs::read_to_string(path) {
+        Ok(t) => t,
+        Err(e) => {
+            println!("MACHINERY: cannot read {}: {}", path, e);
+            return 2;
+        }
+    };
+    let v: Value = match serde_json::from_str(&txt) {
+        Ok(v) => v,
+        Err(e) => {
+            println!("MACHINERY: {} does not parse: {}", path, e);
+            return 2;
+        }
+    };
+    let case = v["case"].clone();
+    let prop = v["property"].as_str().unwrap_or("?").to_string();
+    let op = case["op"].as_str().unwrap_or("").to_string();
+    let f = match replay_table(&op) {
+        Some(f) => f,
+        None => {
+            println!("MACHINERY: no replay handler for op '{}'", op);
+            return 2;
+        }
+    };
+    let want_profile = case["profile"].as_str().map(|s| s.to_string());
+    if let Some(wp) = &want_profile {
+        if wp != profile() {
+            println!("NOTE: this case was recorded in the '{}' profile; this binary is '{}'", wp, profile());
+        }
+    }
+    let timeout = std::time::Duration::from_secs(
+        std::env::var("VERIF_CASE_TIMEOUT_S").ok().and_then(|s| s.parse().ok()).unwrap_or(30),
+    );
+    let once = |case: Value| -> Result<Result<(), Bad>, String> {
+        let (tx, rx) = std::sync::mpsc::channel();
+        std::thread::Builder::new()
+            .stack_size(16 << 20)
+            .spawn(move || {
+                let r = std::panic::catch_unwind(std::panic::AssertUnwindSafe(|| f(&case)));
+                let _ = tx.send(r.map_err(|p| mccore::panic_msg(&p)));
+            })
+            .unwrap();
+        match rx.recv_timeout(timeout) {
+            Ok(Ok(r)) => Ok(r),
+            Ok(Err(p)) => Err(format!("harness panic: {}", p)),
+            Err(_) => Ok(Err(Bad { class: "non-termination".into(), msg: format!("no return within {} s", timeout.as_secs()) })),
+        }
+    };
+    let r1 = once(case.clone());
+    let r2 = once(case.clone());
+    let show = |r: &Result<Result<(), Bad>, String>| match r {
+        Ok(Ok(())) => "holds".to_string(),
+        Ok(Err(b)) => format!("violates [{}] {}", b.class, b.msg),
+        Err(m) => format!("machinery: {}", m),
+    };
+    if show(&r1) != show(&r2) {
+        println!("MACHINERY: replay is not deterministic:\n  1: {}\n  2: {}", show(&r1), show(&r2));
+        return 2;
+    }
+    match r1 {
+        Ok(Ok(())) => {
+            println!("replay: property {} holds on this case ({})", prop, op);
+            0
+        }
+        Ok(Err(b)) => {
+            println!("VIOLATION property={} replay={}", prop, path);
+            println!("  class={} : {}", b.class, mccore::truncate(&b.msg, 1000));
+            1
+        }
+        Err(m) => {
+            println!("MACHINERY: {}", m);
+            2
+        }
+    }
+}
